@@ -15,6 +15,10 @@ Histories of operations on one real MarshalledMessageBody and one real MessageBo
             the typed get of the right type.
   long      the signature is grown to 253..258 and beyond 255 characters, then failing pushes of every kind, small
             successful pushes that step across 254/255/256, reset, more operations.
+  offset    a generic / long history whose body is re-made at buf_offset > 0 (from_parts with foreign bytes in front, offsets
+            smaller and larger than the body; or through the receive path marshal + unmarshal_next_message) once or twice,
+            each time followed by failing pushes of every kind, then the usual pushes, reset and parser walk.  The model's
+            body has no offset (bbuf = get_buf()).
   badtree   push_old_param(s) with Param trees no typed value can have: a struct without fields at any depth/position,
             a variant whose signature is not its value's type, arrays/dicts whose declared element types differ from the
             elements.  Expected: refused, no trace, no panic.
@@ -36,6 +40,11 @@ import os
 
 import vlib
 import wiregen as wg
+
+# from_parts with a buf_offset that is not a multiple of 8: pushes pad relative to the start of the BUFFER, the parser reads
+# relative to the start of the BODY, so a value pushed afterwards can be misaligned (reported to the lead; see run()).
+# Bodies of received messages always start at a multiple of 8.  Kept out of the histories until that is decided.
+UNALIGNED_OFFSETS = False
 
 PARSER_OPS = ("PNEW", "PNEWX", "PGET", "PGETN", "PGETM", "PGETP")
 STATE_KEYS = ("sig", "buf", "nfds", "next", "left")
@@ -720,6 +729,36 @@ class Gen:
         good = self.value(r.choice(self.cat))[0]
         return "BOLDS 2 %s %s" % (good, self.badtree()[0])
 
+    # ---- bodies that do not start at offset 0 of their buffer
+    def offset(self):
+        """a generic (sometimes a long-signature) history in which the body is re-made with buf_offset > 0 - by from_parts
+        with foreign bytes in front (offsets smaller and larger than the body) or by the receive path (marshal + unmarshal_next_message)
+        - once or twice, each time followed by failing pushes; the model's body has no offset"""
+        r = self.r
+        h = self.long_sig() if r.random() < 0.08 else self.generic(r.choice([2, 3, 5, 8, 12]))
+        end = h.index("PNEW")
+        for _ in range(r.choice([1, 1, 2])):
+            at = r.randint(1, end)
+            ins = [r.choice(["BRECV", "BRECV", "BOFF %d" % self.an_offset()])]
+            kinds = ["push", "pushv", "pushn", "pushm", "old", "olds", "oldtree", "params"]
+            for _ in range(r.choice([1, 1, 2, 3])):
+                ins.append(self.failing(r.choice(kinds)))
+            if r.random() < 0.3:
+                ins.insert(1, r.choice(["BPUSHM 1 y y 5", "BRESET", "BOLD t 1"]))
+                if ins[1] != "BRESET":
+                    ins = ins[:1] + ins[2:] + [ins[1]]          # the good push last: it must land behind the old values
+                    # (its type is not known to the walk: the walk's requests from there on are mismatches, which is fine)
+            h[at:at] = ins
+            end += len(ins)
+        return h
+
+    def an_offset(self):
+        r = self.r
+        n = r.choice([8, 8, 16, 24, 32, 64, 112, 128, 1000, 4096, 8 * r.randint(1, 40)])
+        if UNALIGNED_OFFSETS and r.random() < 0.3:
+            n += r.randint(1, 7)
+        return n
+
     # ---- inconsistent Param trees
     def badtree(self):
         """(tokens, kind) of a Param tree no typed value can have"""
@@ -940,6 +979,10 @@ def check_history(ctx, h, hi, hm):
             return ("harness or driver did not understand the line / model outcome outside ok|err (%s | %s)" % (li[:60], lm[:60]), k, "protocol")
         if opname[0] == "B":
             ctx.count("res:B:" + res)
+            if " via=" in li:
+                ctx.count("rehomed:" + li.rsplit(" via=", 1)[1])
+                if prev_state is not None and res == "ok" and (st.get("sig"), st.get("buf"), st.get("nfds")) != prev_state:
+                    return ("re-making the body at another offset changed it (harness)", k, "protocol")
             state = (st.get("sig"), st.get("buf"), st.get("nfds"))
             if res == "panic":
                 return ("a builder operation panicked", k, False)
@@ -1218,6 +1261,7 @@ def run(ctx):
         return
     ctx.extra["types"] = {"catalogue": len(cat), "mix": len(mix)}
     n_generic, n_decode, n_long, n_tree = (30000, 35000, 6000, 9000) if thorough else (6000, 7000, 1200, 1800)
+    n_offset = 12000 if thorough else 2500
     ctx.rule = ("case = one history on one real body/parser, run line by line against the extracted model. quick: %d generic (BNEW, <= 12 builder "
                 "operations: typed push, push_param2..5 with one or with different types, push_params, push_variant, push_old_param(s), reset; "
                 "30%% with a failing element at a random inner position; near-miss signatures; parser walk with matching, mismatching, over-long "
@@ -1225,10 +1269,18 @@ def run(ctx):
                 "parser over the same bytes with one fault inside one value or a Var<T> request with another T; failing value at any slot of "
                 "get2..5; retry / get_param / right type after every failure) + %d long (signature grown to 253..258 and beyond 255, then "
                 "failing pushes of every kind, reset) + %d badtree (push_old_param(s) with empty structs at any depth, mismatching variants, "
-                "arrays/maps with other declared types) + corpus/C15; thorough: x5. Compared after every operation: result, signature, "
+                "arrays/maps with other declared types) + %d offset (the body re-made at buf_offset > 0 by from_parts or by the receive path "
+                "marshal + unmarshal_next_message, then failing and succeeding pushes, reset, walk) + corpus/C15; thorough: x5. Compared after every operation: result, signature, "
                 "bytes, descriptor count (builder); result, value tokens, next signature, signatures left, buf_idx, sig_idx (parser). "
                 "non-trivial = at least one failing operation or a reset; distinct = distinct histories"
-                % (n_generic, n_decode, n_long, n_tree))
+                % (n_generic, n_decode, n_long, n_tree, n_offset))
+    # informational, never a verdict: from_parts with a buf_offset that is not a multiple of 8, then a push of an 8-aligned value
+    probe = ["BNEW le", "BPUSH y y 1", "BOFF 4", "BPUSH t t 9", "PNEW", "PGETP", "PGETP"]
+    _, pout, _ = vlib.run_lines(exe, [], probe)
+    ctx.extra["unaligned_offset_probe"] = {"input": probe, "impl": pout,
+                                           "pushed_value_reads_back": bool(pout) and pout[-1].startswith("ok t 9"),
+                                           "note": "pushes pad relative to the start of the buffer, the parser reads relative to the start of the body; "
+                                                   "histories use multiples of 8 only (UNALIGNED_OFFSETS)"}
     g = Gen(r, cat, mix)
     histories = []
     kinds = []
@@ -1247,6 +1299,9 @@ def run(ctx):
     for _ in range(n_long):
         histories.append(g.long_sig())
         kinds.append("long")
+    for _ in range(n_offset):
+        histories.append(g.offset())
+        kinds.append("offset")
     for _ in range(n_tree):
         h, tk = g.badtrees()
         histories.append(h)
